@@ -544,7 +544,7 @@ def _create_sbml_reactions(
                     reference = f"{compound_id}ref"
                     _create_derived_parameter(sbml_model, reference, factor)
 
-                    sref = sbml_rxn.createReactant()
+                    sref = sbml_rxn.createProduct()
                     sref.setId(_convert_id_to_sbml(id_=reference, prefix="CPD"))
                     sref.setSpecies(_convert_id_to_sbml(id_=compound_id, prefix="CPD"))
                 case _:
